@@ -15,7 +15,7 @@ def run(ck):
         'in cells where the property allows it. Masked-array carriers are C15.')
     for name in TESTS:
         gen = cases.ALL[name]
-        for carrier in ('list_none', 'list_nan'):
+        for carrier in ('list_none', 'list_nan', 'masked_nan'):
             if name == 'valid_range_test':
                 if carrier == 'list_none':
                     continue
